@@ -24,9 +24,9 @@ def stateful(pid, what, ref):
     }
 
 CHECKS = {
- "C01": stateful("C01", "TLC checks CodeOnce/ReplayRefused/ReplayKillsFamily/FamilyIsolation in every state of the bounded design (plain + hybrid codes, refresh chains, revocations, clock; family C01 broad and shallow, family C01b one code followed through time with short lifetimes), plus FCInv/FCRefines (refinement of FamilyCore.tla, whose invariant Apalache shows inductive). One witness history per distinct state of the bounded model, extended by every refused/query operation of that state (a seeded sample at quick), and seeded deep simulated histories are executed on the real provider + reference store and each step (result class, issued credentials, introspection of every token, store projection) is validated against the spec.", "DESIGN.md 6 C01"),
+ "C01": stateful("C01", "TLC checks CodeOnce/ReplayRefused/ReplayKillsFamily/FamilyIsolation in every state of the bounded design (plain + hybrid codes, grants with and without granted scopes, refresh chains, revocations, clock; family C01 broad and shallow, family C01b one code followed through time with short lifetimes), plus FCInv/FCRefines (refinement of FamilyCore.tla, whose invariant Apalache shows inductive). One witness history per distinct state of the bounded model, extended by every refused/query operation of that state (a seeded sample at quick), and seeded deep simulated histories are executed on the real provider + reference store and each step (result class, issued credentials, introspection of every token, store projection) is validated against the spec.", "DESIGN.md 6 C01"),
  "C02": stateful("C02", "Exhaustive TLC check of RedeemGuard/FailedRedeemInert/grant immutability over client x redirect presentation x smuggled parameters x code age (the clock may jump to the end of the modelled time), under a finite and an unlimited refresh-token lifetime; all attempt pairs and seeded longer histories replayed on the real code and validated step by step, incl. the introspection payload of issued tokens.", "DESIGN.md 6 C02"),
- "C03": stateful("C03", "Exhaustive TLC check of PkceGuard/PkceBindingStable over all sequences of redemption attempts for the 8 PKCE configurations, incl. challenges the client derived from a verifier with a reserved character (never redeemable); every attempt sequence up to the generation depth is executed on the real code with real verifiers/S256 challenges and validated.", "DESIGN.md 6 C03"),
+ "C03": stateful("C03", "Exhaustive TLC check of PkceGuard/PkceBindingStable over all sequences of redemption attempts for the 8 PKCE configurations, incl. challenges the client derived from a verifier with a reserved character (never redeemable); every attempt sequence up to the generation depth is executed on the real code with real verifiers/S256 challenges and validated. Storage failures: MCSteps.tla ScnPkceFault redeems a code issued with a challenge (without, with the right, with a wrong verifier) with one injected error at every storage call, then retries; every schedule is forced on the real code.", "DESIGN.md 6 C03"),
  "C04": stateful("C04", "TLC checks RefreshOnce/ReuseKillsFamily/FamilyIsolation on grants of four origins (code, hybrid, password, device) with chains and replays of any generation by the owner or a stranger (family C04), and one refresh chain followed through time with short lifetimes (family C04b); FCInv/FCRefines link the design to FamilyCore.tla, whose invariant (one honoured refresh token per grant, killed grants stay dead) Apalache shows inductive for histories of any length (run at thorough). Behaviours replayed on the real code, every token of every generation probed after every step.", "DESIGN.md 6 C04"),
  "C05": stateful("C05", "TLC checks RefreshGuard/RefreshPreservesGrant/RtIssuanceRule over grant x refresh parameters x presenting client x registration changes (a change stores a new client record, so the snapshot kept with a grant and the current registration differ) x refresh-scope configuration; behaviours replayed and validated incl. payload comparison.", "DESIGN.md 6 C05"),
  "C07": stateful("C07", "TLC checks NothingAfterExpiry/StepExpiryRespected for codes, opaque and JWT access tokens, refresh tokens (finite and unlimited), device/user codes and PAR request URIs with an explicit clock; histories with ticks on both sides of every expiry executed under the synctest clock and validated, advertised expires_in compared. Attached decision tables: TblLifespan (per-client lifetime overrides per grant/token-type pair, unlimited refresh) and the expiry / not-before rows of TblAssertion (JWT assertions).", "DESIGN.md 6 C07"),
@@ -80,16 +80,16 @@ def table(pid, what, ref):
     }
 
 CHECKS["C11"] = table("C11", "TblRedirect.tla states when a redirect to a requested URI is allowed (string-identical to a registered URI, or http + loopback literal + same host/path/query; absolute; no own fragment) over URI records; TLC enumerates every registered set x every one- (thorough: two-) component near-miss of a registered URI x response type x response mode x kind of request error; every row is rendered to strings and driven through NewAuthorizeRequest / NewAuthorizeResponse / WriteAuthorizeResponse / WriteAuthorizeError, and the Location header or form action is compared (redirected => allowed, target = requested, no code over plain http to a non-local host); the same redirect_uri is pushed to the pushed-authorization endpoint, which may accept it only if it is allowed and not plain http to a non-local host. ParRows: the request is pushed with the first registered URI or none and the front-channel request redeeming the request_uri carries a redirect_uri of its own (registered, near-miss, foreign): a redirect goes to the URI fixed at the push.", "DESIGN.md 6 C11")
-CHECKS["C12"] = table("C12", "TblScope.tla transcribes the documented rules of the three scope strategies and two audience strategies; TLC enumerates all pattern/needle pairs over the segment alphabet {a,b,*,empty} up to 3 (thorough 4) segments, all URL pairs of the bounded URL domain, and the confinement table flow x strategy x registration x request for all nine flows; the real strategy functions are called on every row and every flow is driven with every out-of-policy request (accept/refuse, error class, scopes/audience of issued tokens).", "DESIGN.md 6 C12")
+CHECKS["C12"] = table("C12", "TblScope.tla transcribes the documented rules of the three scope strategies and two audience strategies; TLC enumerates all pattern/needle pairs over the segment alphabet {a,b,*,empty} up to 3 (thorough 4) segments, all URL pairs of the bounded URL domain, and the confinement table flow x strategy x registration x request for all nine flows; the real strategy functions are called on every row and every flow is driven with every out-of-policy request (accept/refuse, error class, scopes/audience of issued tokens; a registration change stores a new client record; the front-channel flows are repeated under the JWT access-token strategy with a resource owner who grants no audience, and the aud claim of the JWT is read).", "DESIGN.md 6 C12")
 
-CHECKS["C06"] = table("C06", "TblHmac.tla models a credential as <<prefix, key, mac>> with an uninterpreted injective MAC and states which presentations are accepted under which secret/hash configuration (current, rotated at any position, forgotten, shorter than 32 bytes before/after the matching one, equal in the first 32 bytes, other hash function); TLC enumerates credential kind (code, access, refresh, device code) x 17 mutation classes x 13 configurations (incl. rotated secrets only) x finite/unlimited refresh lifetime, and 19 JWT manipulation classes (incl. manipulated protected headers: crit of the wrong type, unknown crit extension, embedded jwk, b64=false) x validator (storage-backed introspection, StatelessJWTValidator) x before/after expiry x required scope covered or not x session type (OpenID Connect session, oauth2.JWTSession). Every row is concretised n times (seeded bit/byte positions, real tokens minted by the real strategies through the real flows) and presented to Validate and to the consuming endpoint; a refusal must leave the store projection unchanged; all minted values of the run are checked for repeats and for a decoded random part of at least max(32, configured entropy) bytes (configured 0 / 8 / 48).", "DESIGN.md 6 C06")
+CHECKS["C06"] = table("C06", "TblHmac.tla models a credential as <<prefix, key, mac>> with an uninterpreted injective MAC and states which presentations are accepted under which secret/hash configuration (current, rotated at any position, forgotten, shorter than 32 bytes before/after the matching one, equal in the first 32 bytes, other hash function); TLC enumerates credential kind (code, access, refresh, device code) x 17 mutation classes x 13 configurations (incl. rotated secrets only) x finite/unlimited refresh lifetime, and 19 JWT manipulation classes (incl. manipulated protected headers: crit of the wrong type, unknown crit extension, embedded jwk, b64=false) x validator (storage-backed introspection, StatelessJWTValidator) x before/after expiry x required scope covered or not x session type (OpenID Connect session, oauth2.JWTSession), and the replacement of the signing key of the running server (a token of the retired key is refused, one minted afterwards accepted). Every row is concretised n times (seeded bit/byte positions, real tokens minted by the real strategies through the real flows) and presented to Validate and to the consuming endpoint; a refusal must leave the store projection unchanged; all minted values of the run are checked for repeats and for a decoded random part of at least max(32, configured entropy) bytes (configured 0 / 8 / 48).", "DESIGN.md 6 C06")
 CHECKS["C10"] = table("C10", "TblClientAuth.tla transcribes client authentication (registration kind/method/public/rotated secrets x transport x secret relation x known id x endpoint -> authentication verdict and endpoint outcome); TLC enumerates all 6192 rows (incl. confidential registrations without any stored secret hash); each is executed with real bcrypt-hashed secrets at the token (client_credentials, password, refresh_token), revocation, PAR and device-authorization endpoints; on a rejected authentication the storage write log must be empty and the presented refresh token still active.", "DESIGN.md 6 C10")
 CHECKS["C13"] = table("C13", "TblAuthz.tla transcribes the authorization-request validation pipeline and response placement (registered response-type sets, response modes, grant types x response_type list with order and duplicates x response_mode x state/nonce length x openid x redirect_uri); the safety clauses of the statement are ASSUMEd of the specification on the whole domain (70200 rows); rows (all at thorough, a seeded 16000 at quick) are driven through NewAuthorizeRequest/NewAuthorizeResponse/Write*, and verdict, issued artefacts, placement (query/fragment/form), 'no token in the query' and state echo are compared.", "DESIGN.md 6 C13")
 
 CHECKS["C14"] = table("C14", "TblIDToken.tla states, per OpenID flow (code, implicit x2, hybrid x2, refresh, device), when an ID Token is issued (openid granted, non-empty subject, pre-set expiry not in the past) and what it is bound to (algorithm of the signing key, at_hash / c_hash presence and hash size, nonce, aud, sub, iss, exp window), and the max_age / prompt (none, login, consent, login consent, none login, unknown) / id_token_hint (same, other subject, expired, garbage, without subject, foreign key) conditions as a function of auth_time - requested_at incl. a missing and a future auth_time; every row is executed end to end with real RSA / P-256 / P-384 / P-521 keys and the token is parsed and verified with the public key; hashes are recomputed with the standard library.", "DESIGN.md 6 C14")
-CHECKS["C15"] = table("C15", "TblAssertion.tla: every private_key_jwt client assertion and every JWT-bearer grant in which at most 2 (thorough 3) fields deviate from the all-right assertion (registration method incl. a non-OpenID-Connect registration, registered algorithm RS256/ES256/PS256, header algorithm incl. none and HS256, kid, signing key, where the registered keys live (registration, jwks_uri fetched by the real DefaultJWKSFetcherStrategy through an in-memory transport, jwks_uri with a stale cached set), iss, sub, aud incl. list forms and URLs that merely extend the token URL, exp incl. wrong type, nbf, iat, jti, optional-claim switches, scope, how the assertion sits in the form) with the expected accept/refuse; each is signed for real and presented, an accepted one is presented a second time and must be refused. Concurrency: Steps.tla/MCSteps.tla (ScnJti) explore every interleaving of the storage steps of two and three simultaneous presentations of one assertion and check JtiAtMostOnce; the schedules (sampled at quick, all at thorough) are forced on real goroutines and validated step by step.", "DESIGN.md 6 C15")
+CHECKS["C15"] = table("C15", "TblAssertion.tla: every private_key_jwt client assertion and every JWT-bearer grant in which at most 2 (thorough 3) fields deviate from the all-right assertion (exp / nbf incl. one second on the wrong side and fractional NumericDates, keys registered without any scope, registration method incl. a non-OpenID-Connect registration, registered algorithm RS256/ES256/PS256, header algorithm incl. none and HS256, kid, signing key, where the registered keys live (registration, jwks_uri fetched by the real DefaultJWKSFetcherStrategy through an in-memory transport, jwks_uri with a stale cached set), iss, sub, aud incl. list forms and URLs that merely extend the token URL, exp incl. wrong type, nbf, iat, jti, optional-claim switches, scope, how the assertion sits in the form) with the expected accept/refuse; each is signed for real and presented, an accepted one is presented a second time and must be refused. Concurrency: Steps.tla/MCSteps.tla (ScnJti) explore every interleaving of the storage steps of two and three simultaneous presentations of one assertion and check JtiAtMostOnce; the schedules (sampled at quick, all at thorough) are forced on real goroutines and validated step by step.", "DESIGN.md 6 C15")
 
-CHECKS["C20"] = table("C20", "TblErrorWire.tla: writer (access, PAR, device, authorize query/fragment/form_post/no-redirect, introspection, revocation) x 16 RFC errors x legacy/new format x debug exposure x 9 kinds of hostile hint/debug text -> status, content type, cache headers, placement, member set and the decoded description/hint/debug as a composition of atoms (debug only when exposed); all 10368 rows are written by the real Write* functions and decoded with independent parsers. NoSecretToStorage: StoreEvents.tla validates the classified trace of every storage-interface call (key classes per method, no secret or complete credential in a key or in a stored form) recorded from every flow with both credential transports and both token strategies.", "DESIGN.md 6 C20")
+CHECKS["C20"] = table("C20", "TblErrorWire.tla: writer (access, PAR, device, authorize query/fragment/form_post/no-redirect, introspection, revocation) x 16 RFC errors x legacy/new format x debug exposure x 9 kinds of hostile hint/debug text -> status, content type, cache headers, placement, member set and the decoded description/hint/debug as a composition of atoms (debug only when exposed); all 10368 rows are written by the real Write* functions and decoded with independent parsers. NoSecretToStorage: StoreEvents.tla validates the classified trace of every storage-interface call (key classes per method, no secret or complete credential in a key or in a stored form) recorded from every flow with both credential transports and both token strategies, incl. a private_key_jwt client through every flow that stores its request and the verifiable-credentials nonce handler (handler/verifiable). The state reflected into redirects and the form_post page carries & = + $ : @ ; # ? / quotes and angle brackets in the rows with hostile texts.", "DESIGN.md 6 C20")
 CHECKS["C20"]["technique"] = "TLA+ decision specification enumerated by TLC into a table executed on the real writers; storage-interface traces recorded from the real code validated by a TLA+ trace specification (StoreEvents)"
 
 NOT_YET = "check not built yet in this session (planned, see DESIGN.md section 10); nothing is claimed"
